@@ -217,5 +217,6 @@ def check(ctx):
     check_bounds(ctx)
     check_levels(ctx)
     c01.check_level0_closure(ctx)         # level-0 inputs are closed under overlap ...
+    c01.check_manual_truncation(ctx)      # a manual compaction never leaves an overlapping older level-0 file behind
     c01.check_pick_level0_closure(ctx)    # ... for every automatically picked compaction
     c01.check_range_fold(ctx)             # the range that selects next-level inputs covers all inputs
